@@ -144,6 +144,7 @@ def narrowed(st, v, k):
         return Sym("str", V.j_sval(t))
     if k == V.TAG_LIST:
         st.assume(tm.Le(tm.Int(0), V.j_llen(t)))
+        st.assume(tm.Lt(V.j_llen(t), tm.Int(2 ** 32)))      # A-MEM: a request line is shorter than 2^32 bytes
         return JList(t)
     st.assume(tm.Le(tm.Int(0), V.j_dlen(t)))
     return JDict(t, v.oid)
